@@ -295,6 +295,50 @@ std::vector<K> gen_keys(Rng &r, size_t eps, size_t maxn, std::string &family, si
     else return gen_int_keys<K>(r, eps, maxn, family, force_n);
 }
 
+// ---------------------------------------------------------------------------------------------- bounded-exhaustive enumeration
+inline uint64_t binom(unsigned n, unsigned k) {
+    if (k > n) return 0;
+    uint64_t r = 1;
+    for (unsigned i = 1; i <= k; ++i) r = r * (n - k + i) / i;
+    return r;
+}
+
+/// Small-scope enumeration: every non-decreasing sequence of length 1..NMAX over U consecutive values, at three places of
+/// the key type (lowest(), the middle, ending at max-1). `idx` selects one; returns false when idx is past the end.
+struct SmallScope {
+    unsigned U, NMAX;
+    uint64_t per_base() const {
+        uint64_t t = 0;
+        for (unsigned n = 1; n <= NMAX; ++n) t += binom(U + n - 1, n);
+        return t;
+    }
+    uint64_t total() const { return 3 * per_base(); }
+    /// offsets in [0,U) of the idx-th multiset of its length; base selector in 0..2
+    bool get(uint64_t idx, std::vector<unsigned> &offs, unsigned &base_sel) const {
+        if (idx >= total()) return false;
+        base_sel = unsigned(idx / per_base());
+        uint64_t r = idx % per_base();
+        unsigned n = 1;
+        for (; n <= NMAX; ++n) {
+            uint64_t c = binom(U + n - 1, n);
+            if (r < c) break;
+            r -= c;
+        }
+        // unrank the r-th n-combination of {0..U+n-2} (combinatorial number system), then subtract the position
+        offs.assign(n, 0);
+        unsigned x = U + n - 1;
+        for (unsigned i = n; i >= 1; --i) {
+            // largest x' < x with binom(x', i) <= r
+            unsigned v = i - 1;
+            while (v + 1 < x && binom(v + 1, i) <= r) ++v;
+            r -= binom(v, i);
+            offs[i - 1] = v - (i - 1);
+            x = v;
+        }
+        return true;
+    }
+};
+
 template<class K> K key_succ(K k) {
     if constexpr (std::is_floating_point_v<K>) return std::nextafter(k, std::numeric_limits<K>::infinity());
     else return K(k + 1);
